@@ -152,19 +152,29 @@ func (env *Env) serialiserLayout(e *flow.Engine, fn *ssa.Function) (segs []seg, 
 		problems = append(problems, "output buffer is not a fresh fixed-size buffer: "+truncate(buf.String(), 120))
 		return
 	}
+	segs, wprobs := env.bufferWrites(e, fn, buf, size, msg)
+	problems = append(problems, wprobs...)
+	sort.Slice(segs, func(i, j int) bool { return segs[i].lo < segs[j].lo })
+	return
+}
+
+// bufferWrites lists the writes (copy / PutUintN) of fn into the fresh buffer
+// buf (size < 0: length not constant; an open-ended destination has hi = -1).
+func (env *Env) bufferWrites(e *flow.Engine, fn *ssa.Function, buf *flow.Term, size int64, msg *flow.Term) (segs []seg, problems []string) {
 	isBuf := func(t *flow.Term) bool {
 		t = flow.StripConv(t)
-		for t.Op == flow.OpSlice && (t.Args[1].IsConst("") || t.Args[1].IsConst("0")) && (t.Args[2].IsConst("") || t.Args[2].IsConst(fmt.Sprint(size))) {
+		for t.Op == flow.OpSlice && (t.Args[1].IsConst("") || t.Args[1].IsConst("0")) && (t.Args[2].IsConst("") || (size >= 0 && t.Args[2].IsConst(fmt.Sprint(size)))) && !flow.Eq(t, buf) {
 			t = flow.StripConv(t.Args[0])
 		}
 		return flow.Eq(t, buf)
 	}
 	addWrite := func(dst, src *flow.Term, kind string, width int64, pos string) {
 		d := flow.StripConv(dst)
+		if isBuf(d) {
+			// whole-buffer destination: [0, end)
+			d = &flow.Term{Op: flow.OpSlice, Args: []*flow.Term{buf, flow.C("0"), flow.C("")}}
+		}
 		if d.Op != flow.OpSlice || !isBuf(d.Args[0]) {
-			if isBuf(d) {
-				problems = append(problems, pos+": whole-buffer write")
-			}
 			return
 		}
 		n := int64(1)
@@ -183,8 +193,14 @@ func (env *Env) serialiserLayout(e *flow.Engine, fn *ssa.Function) (segs []seg, 
 				lo, ok1 = 0, true
 			}
 			hi, ok2 := affine(d.Args[2], k)
+			if d.Args[2].IsConst("") {
+				hi, ok2 = -1, true
+				if size >= 0 {
+					hi = size
+				}
+			}
 			if !ok1 || !ok2 {
-				problems = append(problems, pos+": non-constant bounds "+d.String())
+				problems = append(problems, pos+": non-constant bounds "+truncate(d.String(), 120))
 				return
 			}
 			f, el, ok := fieldOfMsg(src, msg, k)
@@ -218,7 +234,9 @@ func (env *Env) serialiserLayout(e *flow.Engine, fn *ssa.Function) (segs []seg, 
 				case "(encoding/binary.littleEndian).PutUint64":
 					addWrite(e.Eval(c.Call.Args[1], e.Root(fn)), e.Eval(c.Call.Args[2], e.Root(fn)), "u64", 8, pos)
 				case "(encoding/binary.bigEndian).PutUint16", "(encoding/binary.bigEndian).PutUint32", "(encoding/binary.bigEndian).PutUint64":
-					problems = append(problems, pos+": big-endian write in a little-endian layout")
+					if strings.Contains(e.Eval(c.Call.Args[1], e.Root(fn)).String(), buf.String()) {
+						problems = append(problems, pos+": big-endian write in a little-endian layout")
+					}
 				}
 			}
 		}
